@@ -184,13 +184,17 @@ class SymInt(Sym):
             return "real", _realval(o)
         return None
 
-    def _bin(self, o, fint, freal):
+    def _bin(self, o, fint, freal, intvalued=False):
         l = self._lift(o)
         if l is None:
             return NotImplemented
         k, t = l
         if k == "int":
             return fint(self.term, t)
+        if intvalued and isinstance(o, (float, Fraction)) and _frac_of(o).denominator == 1:
+            # int (//|%) integer-valued float: same value as the integer operation
+            r = fint(self.term, z3.IntVal(int(_frac_of(o))))
+            return SymFrac(z3.ToReal(r.term))
         return freal(z3.ToReal(self.term), t)
 
     def __bool__(self):
@@ -235,16 +239,16 @@ class SymInt(Sym):
                          lambda a, b: _real_div(b, a, "float division by zero"))
 
     def __floordiv__(self, o):
-        return self._bin(o, lambda a, b: _int_floordiv(a, b), lambda a, b: _real_floordiv(a, b))
+        return self._bin(o, lambda a, b: _int_floordiv(a, b), lambda a, b: _real_floordiv(a, b), True)
 
     def __rfloordiv__(self, o):
-        return self._bin(o, lambda a, b: _int_floordiv(b, a), lambda a, b: _real_floordiv(b, a))
+        return self._bin(o, lambda a, b: _int_floordiv(b, a), lambda a, b: _real_floordiv(b, a), True)
 
     def __mod__(self, o):
-        return self._bin(o, lambda a, b: _int_mod(a, b), lambda a, b: _real_mod(a, b))
+        return self._bin(o, lambda a, b: _int_mod(a, b), lambda a, b: _real_mod(a, b), True)
 
     def __rmod__(self, o):
-        return self._bin(o, lambda a, b: _int_mod(b, a), lambda a, b: _real_mod(b, a))
+        return self._bin(o, lambda a, b: _int_mod(b, a), lambda a, b: _real_mod(b, a), True)
 
     def __divmod__(self, o):
         q = self // o
@@ -342,6 +346,9 @@ def _real_div(a, b, msg):
 
 
 def _real_floor(t):
+    ts = z3.simplify(t)
+    if z3.is_app_of(ts, z3.Z3_OP_TO_REAL):
+        return ts            # floor of an integer-valued term is the term itself
     return z3.ToReal(z3.ToInt(t))
 
 
@@ -1047,9 +1054,13 @@ class ConcreteUF:
         explore._CUR = None
         try:
             # build the application term without touching path state
-            terms = [_arg_term(a, fam) for a in args]
+            def coerce(a):
+                if fam in ("int", "bv") and isinstance(a, (Fraction, float)) and _frac_of(a).denominator == 1:
+                    return int(a)
+                return a
+            terms = [_arg_term(coerce(a), fam) for a in args]
             kws = tuple(sorted(kwargs))
-            terms += [_arg_term(kwargs[k], fam) for k in kws]
+            terms += [_arg_term(coerce(kwargs[k]), fam) for k in kws]
             sorts = tuple(t.sort() for t in terms)
             rs = {"int": z3.IntSort(), "real": z3.RealSort(), "bv": z3.BitVecSort(BVW)}[fam]
             key = (self.uf.name, len(args), kws, tuple(str(s) for s in sorts), str(rs))
